@@ -1,14 +1,15 @@
 #!/bin/bash
-# Builds the harness crates (Kani codegen + native replay binaries) from files on disk only.
+# Builds the harness crates' dependencies (Kani codegen of one small harness per crate + native
+# replay binaries) from files on disk only. Every ./check run rebuilds what it needs from /repo.
 set -u
 cd "$(dirname "$0")"
 export CARGO_NET_OFFLINE=true CARGO_TERM_COLOR=never
 mkdir -p .work/logs evidence
 rc=0
-for c in harness/*/; do
-  c=$(basename "$c"); [ -f "harness/$c/Cargo.toml" ] || continue
+declare -A FIRST=( [hm]="c20::c20_merge_laws" [hp]="c14::c14_pos_narrow3" [hv]="c16::c16_ser_i8" )
+for c in hm hp hv; do
   if [ -f /repo/Cargo.lock ]; then cp /repo/Cargo.lock "harness/$c/Cargo.lock"; else cp harness/Cargo.lock.base "harness/$c/Cargo.lock"; fi
-  ( cd "harness/$c" && cargo kani --only-codegen -Z stubbing --target-dir "../../.work/$c-kani" > "../../.work/logs/setup-$c-kani.log" 2>&1 ) || { echo "kani codegen failed for $c (see .work/logs/setup-$c-kani.log)"; rc=1; }
+  ( cd "harness/$c" && cargo kani --only-codegen -Z stubbing --exact --harness "${FIRST[$c]}" --target-dir "../../.work/$c-kani" > "../../.work/logs/setup-$c-kani.log" 2>&1 ) || { echo "kani codegen failed for $c (see .work/logs/setup-$c-kani.log)"; rc=1; }
   ( cd "harness/$c" && cargo build --bin replay --target-dir "../../.work/$c-native" > "../../.work/logs/setup-$c-native.log" 2>&1 ) || { echo "native build failed for $c"; rc=1; }
 done
 exit $rc
